@@ -1289,15 +1289,19 @@ impl EcmaRegexValidator {
     self.last_int_value = 0;
     if let Some(cp) = self.code_point_with_offset(0) {
       if cp.is_ascii_digit() {
-        self.last_int_value =
-          10 * self.last_int_value + cp.to_digit(10).unwrap() as i64;
+        self.last_int_value = self
+          .last_int_value
+          .saturating_mul(10)
+          .saturating_add(cp.to_digit(10).unwrap() as i64);
         self.advance();
         while let Some(cp) = self.code_point_with_offset(0) {
           if !cp.is_ascii_digit() {
             break;
           }
-          self.last_int_value =
-            10 * self.last_int_value + cp.to_digit(10).unwrap() as i64;
+          self.last_int_value = self
+            .last_int_value
+            .saturating_mul(10)
+            .saturating_add(cp.to_digit(10).unwrap() as i64);
           self.advance();
         }
         return true;
@@ -1447,12 +1451,13 @@ impl EcmaRegexValidator {
       if !cp.is_ascii_digit() {
         break;
       }
-      self.last_int_value = 10 * self.last_int_value
-        + self
+      self.last_int_value = self.last_int_value.saturating_mul(10).saturating_add(
+        self
           .code_point_with_offset(0)
           .unwrap()
           .to_digit(10)
-          .unwrap() as i64;
+          .unwrap() as i64,
+      );
       self.advance();
     }
 
@@ -1476,8 +1481,10 @@ impl EcmaRegexValidator {
       if !cp.is_ascii_hexdigit() {
         break;
       }
-      self.last_int_value =
-        16 * self.last_int_value + cp.to_digit(16).unwrap() as i64;
+      self.last_int_value = self
+        .last_int_value
+        .saturating_mul(16)
+        .saturating_add(cp.to_digit(16).unwrap() as i64);
       self.advance();
     }
     self.index() != start
